@@ -163,7 +163,7 @@ func checkC03(c *Check) {
 		// ... and the offender is not resumed on that path: no PtraceCont before the return, none deferred (the kill
 		// is sent by the caller's cleanup after this function returned; a resumed tracee executes the refused call)
 		resumed := ""
-				isCont := func(ci ssa.CallInstruction) bool {
+		isCont := func(ci ssa.CallInstruction) bool {
 			n, _ := calleeOf(ci)
 			return strings.HasSuffix(n, ".PtraceCont") || strings.HasSuffix(n, ".PtraceSyscall")
 		}
